@@ -11,6 +11,7 @@ import sympy as sp
 from ..core import AnalysisError, norm
 from .. import symx, spec, aud
 from ..symx import Tx, E, S, is_zero
+from ..canon import expand_locals, record_field_values
 from ..astutil import walk_local, stores, parent, dominates_structurally
 from ..cfg import paths
 
@@ -75,56 +76,72 @@ def lookup_rule(chk, name, fm):
     chk.ob("C17.R1", where, "search-side-matches-base", args_ok and side_v == fm["side"],
            f"{name} positions are {fm['base']}-based, so the batch is found with searchsorted(lookup, s, side='{fm['side']}')",
            node=call, side=side_v, args=[norm(a) for a in call.args])
-    # R := the variable holding int(searchsorted(...))
+    # R := int(searchsorted(...)), whether or not it is bound to a name
     st = call
     while not isinstance(st, ast.stmt):
         st = parent(st)
-    Rn = norm(st.targets[0]) if isinstance(st, ast.Assign) else None
-    tx = Tx(env={Rn: E(S("R"))} if Rn else {})
-    tx.post = lambda e: _strip_int(e)
-    for s0 in l.body:  # temporaries of the loop body, in order
-        if isinstance(s0, ast.Assign) and len(s0.targets) == 1 and isinstance(s0.targets[0], ast.Name) and s0 is not st:
-            try:
-                tx._assign(s0.targets[0], symx.map_e(tx.expr(s0.value), _strip_int))
-            except symx.Unsupported:
-                pass
-    # offset: the loop-body local computed from the look-up table
-    off = [s for s in l.body if isinstance(s, ast.Assign) and isinstance(s.targets[0], ast.Name) and f"{LK}[" in norm(s.value)]
-    OFF = norm(off[0].targets[0]) if len(off) == 1 else None
-    ok_off = False
+    Rn = norm(st.targets[0]) if isinstance(st, ast.Assign) and isinstance(st.targets[0], ast.Name) else None
+    stop = tuple(x for x in (Rn, sv, LK) if x)
+
+    def term(e):
+        """the value of a loop-body expression in terms of R, s and the tables: temporaries expanded, int() dropped"""
+        x = expand_locals(e, fn, stop=stop)
+        for n in ast.walk(x):  # an un-named searchsorted call is R as well
+            pass
+        txt = ast.unparse(x)
+        for c in (f"int({ast.unparse(call)})", ast.unparse(call)):
+            txt = txt.replace(c, "R")
+        t = Tx(env={Rn: E(S("R"))} if Rn else {})
+        t.post = _strip_int
+        return symx.map_e(t.expr(ast.parse(txt, mode="eval").body), _strip_int)
+
+    # the record of the card: selection-order store  D[<card id>][..] / D[<card id>] = {..}
+    recs = record_field_values(l, "selection_order")
+    key_t = None
+    col_tab, col_batch = fm.get("cols", (("Tabulator Number", "Tabulator"), ("Batch Number", "Batch Name")))
+    ok_off = ok_id = False
     detail = {}
-    if len(off) == 1:
-        v = tx.env.get(OFF)
-        want = S(sv) - S(f"{LK}[R - 1]")
-        ok_off = isinstance(v, E) and is_zero(v.e - want)
-        detail["offset"] = repr(v)
+    if len(recs) == 1:
+        try:
+            key_t = term(recs[0][0].slice)
+        except symx.Unsupported as e:
+            detail["untranslated"] = str(e)
+    if isinstance(key_t, E):
+        detail["card_id"] = sp.sstr(key_t.e)[:200]
+        want_ids = []
+        for ct in col_tab:
+            for cb in col_batch:
+                w = Tx()
+                w.post = _strip_int
+                src = "f\"{manifest.iloc[R - 1]['%s']}-{manifest.iloc[R - 1]['%s']}-{%s - %s[R - 1]}\"" % (ct, cb, sv, LK)
+                want_ids.append(symx.map_e(w.expr(ast.parse(src, mode="eval").body), _strip_int))
+        ok_id = any(isinstance(w, E) and key_t.e == w.e for w in want_ids)
+        # the offset alone: the last component of the identifier
+        last = key_t.e.args[-1] if getattr(key_t.e, "args", None) else None
+        if last is not None:
+            inner = last.args[0] if isinstance(last, sp.core.function.AppliedUndef) and last.func.__name__ == "str" and len(last.args) == 1 else last
+            ok_off = is_zero(inner - (S(sv) - S(f"{LK}[R - 1]")))
+            detail["offset"] = sp.sstr(inner)
     chk.ob("C17.R1", where, "offset=s-lookup[R-1]", ok_off,
-           "the position within the batch is s - lookup[R-1] for the same R that selects the batch", node=off[0] if off else l, **detail)
+           "the position within the batch is s - lookup[R-1] for the same R that selects the batch", node=l, **detail)
     # every row access uses R - 1
     rows_ = [n for n in walk_local(l) if isinstance(n, ast.Subscript) and norm(n.value) == "manifest.iloc"]
     bad = []
     for r in rows_:
-        v = tx.expr(r.slice)
+        try:
+            v = term(r.slice)
+        except symx.Unsupported:
+            v = None
         if not (isinstance(v, E) and is_zero(v.e - (S("R") - 1))):
             bad.append(norm(r))
     chk.ob("C17.R1", where, "row=R-1", bool(rows_) and not bad,
            "every column of the card's batch is read from manifest row R - 1", node=l, rows=len(rows_), bad=bad)
     # R2 phantom / selection order are C08.R5 / C07.R6; here: the card id is built from that row and offset
-    cid = [s for s in l.body if isinstance(s, ast.Assign) and isinstance(s.targets[0], ast.Name) and isinstance(s.value, ast.JoinedStr)]
-    ok = False
-    if len(cid) == 1:
-        parts = [v.value for v in cid[0].value.values if isinstance(v, ast.FormattedValue)]
-        locd = {norm(a.targets[0]): a.value for a in l.body if isinstance(a, ast.Assign) and isinstance(a.targets[0], ast.Name)}
-        def col_of(n):
-            d = locd.get(norm(n))
-            return d.slice.value if isinstance(d, ast.Subscript) and isinstance(d.slice, ast.Constant) and "manifest.iloc" in norm(d.value) else None
-        ok = len(parts) == 3 and norm(parts[2]) == OFF and col_of(parts[0]) in ("Tabulator Number", "Tabulator") \
-            and col_of(parts[1]) in ("Batch Number", "Batch Name")
-    chk.ob("C17.R2", where, "card-id-from-batch-and-position", ok,
-           "the card identifier is tabulator-batch-position of the located batch", node=cid[0] if cid else l, strength="N")
-    so = [(t, v, s) for t, v, s in stores(l) if isinstance(t, ast.Subscript) and norm(t.slice) in ('"selection_order"', "'selection_order'")]
+    chk.ob("C17.R2", where, "card-id-from-batch-and-position", ok_id,
+           "the card identifier is tabulator-batch-position of the located batch", node=l, strength="N")
     iv = norm(l.target.elts[0]) if isinstance(l.target, ast.Tuple) else None
-    chk.ob("C17.R2", where, "selection-order", len(so) == 1 and norm(so[0][1]) == iv and norm(l.iter) == "enumerate(sample)",
+    chk.ob("C17.R2", where, "selection-order", len(recs) == 1 and norm(expand_locals(recs[0][1], fn, stop=(iv, sv))) == iv
+           and norm(l.iter) == "enumerate(sample)" and parent(recs[0][2]) is l,
            "each card's selection order is its position in the sample", node=l, strength="N")
 
 
@@ -147,27 +164,41 @@ def cvr_lookup_rule(chk, name, fm):
     if len(loops) == 1:
         l = loops[0]
         iv, sv = [norm(e) for e in l.target.elts]
+        X = lambda e: norm(expand_locals(e, fn, stop=(iv, sv)))
         apps = [s for s in l.body if isinstance(s, ast.Expr) and isinstance(s.value, ast.Call) and isinstance(s.value.func, ast.Attribute)
-                and s.value.func.attr == "append" and s.value.args and norm(s.value.args[0]) == f"cvr_list[{sv}]"]
+                and s.value.func.attr == "append" and s.value.args and X(s.value.args[0]) == f"cvr_list[{sv}]"]
         CS = norm(apps[0].value.func.value) if len(apps) == 1 else None  # the list of sampled CVRs
-        ids = [s for s in l.body if isinstance(s, ast.Assign) and isinstance(s.targets[0], ast.Name) and norm(s.value) == f"cvr_list[{sv}].id"]
-        CVID = norm(ids[0].targets[0]) if len(ids) == 1 else None
-        ok = len(apps) == 1 and len(ids) == 1
+        ok = len(apps) == 1
         # the card identifier (the key of the selection-order record) derives from the CVR's id on every path
-        keys = {norm(t.value.slice) for t, v, s in stores(l) if isinstance(t, ast.Subscript) and isinstance(t.value, ast.Subscript)
-                and norm(t.slice) in ("'selection_order'", '"selection_order"')}
-        CID = keys.pop() if len(keys) == 1 else None
-        cids = [s for s in walk_local(l) if isinstance(s, ast.Assign) and CID and norm(s.targets[0]) == CID]
-        uses = all(_derives_from(s.value, l, CVID) for s in cids) if CVID else False
-        ok = ok and bool(cids) and uses
-        detail = dict(card_id=[norm(s.value) for s in cids])
+        recs = record_field_values(l, "selection_order")
+        keys = [X(t.slice) for t, v, s in recs]
+        ok = ok and bool(keys) and all(_derives_from_text(t.slice, fn, f"cvr_list[{sv}].id", (iv, sv)) for t, v, s in recs)
+        detail = dict(card_id=[k[:160] for k in keys])
         rets = [r for r in walk_local(fn) if isinstance(r, ast.Return)]
-        ok = ok and len(rets) == 1 and CS in [norm(e) for e in rets[0].value.elts]
+        ok = ok and len(rets) == 1 and isinstance(rets[0].value, ast.Tuple) and CS in [norm(e) for e in rets[0].value.elts]
         sorts = [c for c in walk_local(fn) if isinstance(c, ast.Call) and isinstance(c.func, ast.Attribute) and c.func.attr in ("sort", "reverse") and norm(c.func.value) == CS]
         ok = ok and not sorts
     chk.ob("C17.R2", where, "cvrs-in-selection-order-with-matching-ids", ok,
            "the CVR-driven lookup returns cvr_list[s] for each s in sample order (never re-sorted) and derives the card identifier from that CVR's id",
            node=fn, strength="N", **detail)
+
+
+def _derives_from_text(expr, fn, text, stop, seen=()):
+    """is `expr` built from the expression `text` on every path: its own text (temporaries with one definition expanded) contains
+    it, or it reads a name *all* of whose definitions are built from it"""
+    if text in norm(expand_locals(expr, fn, stop=stop)):
+        return True
+    for n in ast.walk(expr):
+        if isinstance(n, ast.Name) and n.id not in seen and n.id not in stop:
+            defs = []
+            for s in walk_local(fn):
+                if isinstance(s, ast.Assign):
+                    for t in s.targets:
+                        if any(isinstance(x, ast.Name) and x.id == n.id and isinstance(x.ctx, ast.Store) for x in ast.walk(t)):
+                            defs.append(s.value)
+            if defs and all(_derives_from_text(d, fn, text, stop, seen + (n.id,)) for d in defs):
+                return True
+    return False
 
 
 def _derives_from(expr, loop, name):
